@@ -378,6 +378,7 @@ def main():
             if T(cid, "end_zero"): fired["lcd-region-end-zero"] += 1
             elif T(cid, "nested"): fired["lcd-nested-region-conflict"] += 1
             else: py_tl.append(cid)
+        if obs["leaves_lost"] and not T(cid, "end_zero") and cid not in py_tl: py_tl.append(cid)      # nothing visible may be lost, hiding or not
         if obs["twice"] is not None: py_twice.append(cid)
         if obs["computed_bad"]: py_comp.append(cid)
         if obs["align_bad"]:
